@@ -80,7 +80,7 @@ def _make_variant(rng, seq, pos, kinds):
 
 
 def gen_core(rng, n_chroms=None, n_samples=None, length=None, n_variants=None, ploidy=2,
-             kinds=None, het_rate=None, min_gap=15, homopolymers=0, sample_names=None):
+             kinds=None, het_rate=None, min_gap=15, homopolymers=0, sample_names=None, first_base_variant=0.0):
     """reference, samples, core records with unphased sorted GT, main truth"""
     n_chroms = n_chroms or rng.choice([1, 1, 2])
     n_samples = n_samples or rng.choice([1, 2, 2, 3])
@@ -98,8 +98,11 @@ def gen_core(rng, n_chroms=None, n_samples=None, length=None, n_variants=None, p
         seq = rand_seq(rng, L, homopolymers)
         chroms.append({"name": chrom_names[ci], "seq": seq})
         nv = n_variants or rng.choice([3, 4, 6, 8, 12, 18, 25])
-        for pos in _pick_positions(rng, L, nv, min_gap):
-            ref, alt = _make_variant(rng, seq, pos, kinds)
+        positions = _pick_positions(rng, L, nv, min_gap)
+        if first_base_variant and rng.random() < first_base_variant and (not positions or positions[0] >= min_gap):
+            positions = [0] + positions  # a variant at POS 1: its phase set gets the smallest possible id
+        for pos in positions:
+            ref, alt = _make_variant(rng, seq, pos, kinds if pos > 0 else ["snv"])
             calls = {}
             for s in samples:
                 x = rng.random()
@@ -314,7 +317,7 @@ def _read_alignment(world, lib, read):
             vend = pos + len(ref)
             if vend <= st or pos >= en:
                 continue
-            if st <= pos - 1 and vend + 1 <= en:
+            if st <= pos and vend + 1 <= en:
                 continue
             if pos - st < en - vend:
                 st = vend
